@@ -121,6 +121,11 @@ def run_case(tree, qq, idx, c):
         env.update({k: v.encode("latin1").decode("utf-8", "surrogateescape") for k, v in c.env.items()})
     env.pop("RELAYCLIENT", None)
     env.update(qq.env("s%d" % idx, exitcode=c.qexit, err=c.qtext, die=c.qdie))
+    if getattr(c, "fault", None):
+        # one failing (or short) system call in the daemon itself
+        k, what, trace = c.fault
+        binary_ = {"smtp": "qmail-smtpd", "qmtp": "qmail-qmtpd", "qmqp": "qmail-qmqpd"}[c.proto]
+        env.update(sandbox.shim_env(tree, trace=trace, extra={"VERIF_FAULT": "%d:%s" % (k, what), "VERIF_FAULT_PROG": binary_} if k else None))
     if c.databytes is not None:
         env["DATABYTES"] = str(c.databytes)
     stream = multi_stream(c) if isinstance(c, Multi) else {"smtp": smtp_stream, "qmtp": qmtp_stream, "qmqp": qmqp_stream}[c.proto](c)
@@ -163,7 +168,7 @@ def make_record(c, out, subs, acks=None):
     pf = {"known": True, "host": B(e.get("TCPREMOTEHOST", "unknown")), "helo": B(helo), "hashelo": c.proto == "smtp", "info": B(e.get("TCPREMOTEINFO", "")),
           "hasinfo": "TCPREMOTEINFO" in e, "ip": B(e.get("TCPREMOTEIP", "unknown")), "local": B(e.get("TCPLOCALHOST") or e.get("TCPLOCALIP") or "unknown"),
           "proto": B(c.proto.upper())}
-    return {"pf": pf, "proto": c.proto, "over": bool(c.over), "hops": bool(c.hops), "sbad": bool(c.sbad), "rc": c.rc, "cut": c.cut is not None,
+    return {"pf": pf, "proto": c.proto, "over": bool(c.over), "hops": bool(c.hops), "sbad": bool(c.sbad), "rc": c.rc, "cut": c.cut is not None or bool(getattr(c, "isfault", False)),
             "qinv": qinv, "qcomplete": bool(complete), "qexit": c.qexit if qinv else 0, "qsig": bool(qinv and c.qdie == "sig"), "qtext": qtext,
             "acks": acks, "body": list(c.body), "got": list(got), "recv": list(recv), "xs": list(c.sender), "gs": list(gs),
             "xr": [list(r) for r in c.rcpts], "gr": [list(r) for r in gr], "note": c.note}
@@ -285,6 +290,27 @@ def main():
         note = json.load(open(a.replay))["case"]["note"]
         proto = json.load(open(a.replay))["case"]["proto"]
         cases = [c for c in cases if (c.note == note or (isinstance(c, Multi) and note.startswith(c.note + "#"))) and c.proto == proto]
+    # ---- one failing or short system call of the daemon per run (every call of a standard transaction): whatever fails, a
+    # positive acknowledgement still means exactly that message was queued (judged like a disconnect: an acknowledgement may
+    # be missing, never wrong)
+    if not a.replay:
+        s_, r1_, r2_ = b"s@sender.test", b"a@rh.test", b"b@rh.test"
+        fbody = b"Subject: f\n\n" + b"".join(b"line %03d of a body that is long enough to need more than one write\n" % i for i in range(40))
+        for proto in ("smtp", "qmtp", "qmqp"):
+            tr = ck.scratch.path("fault0.%s.trace" % proto)
+            c0 = Case(proto, fbody, s_, [r1_, r2_] if proto != "smtp" else [r1_], note="faultprobe")
+            c0.fault = (0, "", tr)
+            run_case(tree, qq, 0, c0)
+            ncalls = len([e for e in sandbox.read_trace(tr) if "qmail-" + {"smtp": "smtpd", "qmtp": "qmtpd", "qmqp": "qmqpd"}[proto] in e.get("r", "") and e.get("c") not in ("exit", "start", "hello")])
+            if ncalls < 5:
+                raise Infra("the traced %s daemon made only %d intercepted calls" % (proto, ncalls))
+            for k in range(1, ncalls + 3):
+                for what in (("5", "short1", "short100") if (thorough or k % 2) else ("5",)):
+                    c = Case(proto, fbody, s_, [r1_, r2_] if proto != "smtp" else [r1_], cut=None, note="fault%d/%s" % (k, what))
+                    c.fault = (k, what, ck.scratch.path("faultrun.trace"))
+                    c.isfault = True
+                    cases.append(c)
+        qq.collect()
     jobs = list(enumerate(cases, 1))
     results = sessions.pmap(lambda j: run_case(tree, qq, j[0], j[1]), jobs, workers=NCPU)
     subs = qq.collect()
